@@ -27,6 +27,7 @@ BOUNDS = ('victim = 1 op (thorough: 2 ops in sequence) out of 33; all numeric ar
 ASSUMPTIONS = ['only valid API calls are made (the op alphabet never violates a usage assertion)',
                'exceptions the program itself raises: UserErr (op "raise")']
 
+FIXED2 = {'h': 2, 'r': 3, 'u': 4, 'x': 1, 'v': 2, 'a': 1, 'b': 1, 'p': 2, 'd2': 3}
 DOUBLE = 9      # extra attacker kind on top of Fault.*: cancel twice
 
 
@@ -50,9 +51,10 @@ def signal_monitor(E, probe):
     return hook
 
 
-def fam_kernel(E, names, fault_kinds, nops=1, pmax=2, real=False, placements=True):
+def fam_kernel(E, names, fault_kinds, nops=1, pmax=2, real=False, placements=True, fixed=False):
     log = Log()
-    W = World(E, log, real=real)
+    # two-op programs keep the secondary arguments concrete to bound the date orderings
+    W = World(E, log, real=real, fixed=FIXED2 if fixed else None)
     chosen = [names[E.pick('op%d' % k, len(names))] for k in range(nops)]
     parts = [make_op(W, chosen[k], 'v%d' % k) for k in range(nops)]
     kinds = list(fault_kinds)
@@ -104,7 +106,7 @@ def fam_kernel(E, names, fault_kinds, nops=1, pmax=2, real=False, placements=Tru
     by = log.first('by', 'end')
     E.prove(by is not None and EQ(by[2], 50), 'bystander-undisturbed')
     # without an attacker every op that can complete does complete
-    if fault.kind == Fault.NONE:
+    if fault.kind == Fault.NONE and nops == 1:
         for k, name in enumerate(chosen):
             if name in ('eternity',):
                 break
@@ -123,9 +125,13 @@ FAMILIES = [
            reach=OPS + ['none', 'cancel', 'interrupt', 'close', 'cancel+close'],
            bounds='one op, all attackers'),
     Family('two_ops', fam_kernel,
-           thorough=dict(names=[o for o in OPS if o not in ('eternity', 'raise')],
+           thorough=dict(names=['sleep', 'after', 'flag.set', 'await flag', 'await f1&f2',
+                                'tracked.set', 'await tracked>=x', 'lock', 'queue.put',
+                                'await queue', 'for channel', 'channel.put', 'borrow', 'claim',
+                                'pipe.transfer', 'interval', 'first', 'scope', 'until',
+                                'scope failing', 'until graceful'],
                          fault_kinds=[Fault.NONE, Fault.CANCEL, Fault.CLOSE], nops=2, pmax=1,
-                         placements=False),
+                         placements=False, fixed=True, _max_wall=1200),
            bounds='two ops in sequence'),
     Family('one_op_real', fam_kernel,
            thorough=dict(names=['sleep', 'moment', 'after', 'lock', 'await queue', 'borrow',
